@@ -57,6 +57,9 @@ func TestC12(t *testing.T) {
 		// canary on one, rollout on the other namespace's namesake
 		{name: "S6-canary-and-namesake", nodes: []string{"n1", "n2"}, eds: canary, extra: []client.Object{w.NewEDS("other", "foo", "A", w.WithFrequency(0))},
 			first: both("other/foo")[:1], alpha: dev(), budget: b},
+		// a canary of one ExtendedDaemonSet next to a rollout of another one in the SAME namespace (canary labels, clean-up window)
+		{name: "S6-canary-and-neighbour-same-namespace", nodes: []string{"n1", "n2"}, eds: canary, extra: []client.Object{w.NewEDS("ns", "bar", "A", w.WithFrequency(0))},
+			first: both("ns/bar"), alpha: &w.Alpha{Kubectl: []string{"canary-validate"}}, budget: b},
 		// PodTemplate objects of namesakes
 		{name: "S6-podtemplates", nodes: []string{"n1"}, extra: []client.Object{w.NewEDS("other", "foo", "A", w.WithFrequency(0))},
 			first: both("other/foo")[:1], alpha: &w.Alpha{PT: true}, budget: 0},
